@@ -27,18 +27,20 @@ type lifeStep struct {
 	P int    `json:"p"`
 }
 type lifeCase struct {
-	Op        string     `json:"op"`
-	K         int        `json:"k"`
-	OnServe   bool       `json:"onServe"`
-	OnError   bool       `json:"onError"`
-	OnAccept  bool       `json:"onAccept"`
-	OnClose   bool       `json:"onClose"`
-	Rejects   []int      `json:"rejects"`
-	Steps     []lifeStep `json:"steps"`
-	Seed      int64      `json:"seed"`
-	Idx       int        `json:"idx"`
-	SdOnServe bool       `json:"sdOnServe"`
-	TCP       bool       `json:"tcp"`
+	Op            string     `json:"op"`
+	K             int        `json:"k"`
+	OnServe       bool       `json:"onServe"`
+	OnError       bool       `json:"onError"`
+	OnAccept      bool       `json:"onAccept"`
+	OnClose       bool       `json:"onClose"`
+	Rejects       []int      `json:"rejects"`
+	Steps         []lifeStep `json:"steps"`
+	Seed          int64      `json:"seed"`
+	Idx           int        `json:"idx"`
+	SdOnServe     bool       `json:"sdOnServe"`
+	SdBeforeServe bool       `json:"sdBeforeServe"`
+	AddrHold      bool       `json:"addrHold"`
+	TCP           bool       `json:"tcp"`
 }
 
 type lifeWorld struct {
@@ -311,23 +313,40 @@ func runLife(w *writer, c *lifeCase) {
 		})
 	}
 	earlyShutdown = startShutdown
-	go func() {
-		var err error
-		if c.TCP {
-			err = srv.Serve(ctx, tcpLn, h)
-		} else {
-			err = srv.Serve(ctx, ln, h)
+	serveStarted := false // only the driving goroutine starts the serve call
+	startServe := func() {
+		if serveStarted {
+			return
 		}
-		kind := "other"
-		switch {
-		case err == nil:
-			kind = "nil"
-		case errors.Is(err, server.ErrServerClosed):
-			kind = "closed"
-		}
-		lw.log(Ev{"ev": "serve.ret", "err": kind})
-		close(served)
-	}()
+		serveStarted = true
+		func() {
+			go func() {
+				var err error
+				var use net.Listener = ln
+				if c.TCP {
+					use = tcpLn
+				}
+				if c.AddrHold {
+					use = &slowAddrListener{Listener: use}
+				}
+				err = srv.Serve(ctx, use, h)
+				kind := "other"
+				switch {
+				case err == nil:
+					kind = "nil"
+				case errors.Is(err, server.ErrServerClosed):
+					kind = "closed"
+				}
+				lw.log(Ev{"ev": "serve.ret", "err": kind})
+				close(served)
+			}()
+		}()
+	}
+	// gated replay: the serve call begins with the schedule's first accept-loop step; free running: at once, unless
+	// the scenario is "Shutdown comes before the serve call" (sdBeforeServe)
+	if c.Op != "life" && !c.SdBeforeServe {
+		startServe()
+	}
 
 	clients := map[int]*lifeClient{}
 	var cmu sync.Mutex
@@ -430,7 +449,12 @@ func runLife(w *writer, c *lifeCase) {
 			case "shutdown":
 				shutdown()
 			case "acc":
-				lw.release("acc", 15*time.Millisecond)
+				if !serveStarted {
+					startServe() // the serve call installs its listener: the accept loop's first step
+					time.Sleep(time.Millisecond)
+				} else {
+					lw.release("acc", 15*time.Millisecond)
+				}
 			case "conn":
 				lw.release(fmt.Sprintf("conn%d", st.P), 15*time.Millisecond)
 			case "sd":
@@ -441,6 +465,26 @@ func runLife(w *writer, c *lifeCase) {
 	} else {
 		// free running: seeded client scripts, shutdown or cancel at a seeded point
 		var wg sync.WaitGroup
+		if c.AddrHold {
+			stopAddr := make(chan struct{})
+			defer close(stopAddr)
+			go func() {
+				for {
+					select {
+					case <-stopAddr:
+						return
+					default:
+						// (Server.Addr() before the serve call has installed its listener dereferences nil - outside
+						// what C17 quantifies over, noted in DESIGN.md; this helper simply tries again)
+						func() {
+							defer func() { _ = recover() }()
+							_ = srv.Addr()
+						}()
+						time.Sleep(100 * time.Microsecond)
+					}
+				}
+			}()
+		}
 		for id := 1; id <= c.K; id++ {
 			wg.Add(1)
 			go func(id int, seed int64) {
@@ -461,6 +505,10 @@ func runLife(w *writer, c *lifeCase) {
 		rngMu.Lock()
 		pause, doCancel := 2+rng.Intn(14), rng.Intn(3) == 0
 		rngMu.Unlock()
+		if c.SdBeforeServe {
+			// Shutdown is called (and returns) before the serve call is made
+			pause, doCancel = 0, false
+		}
 		time.Sleep(time.Duration(pause) * time.Millisecond)
 		if doCancel {
 			lw.log(Ev{"ev": "op", "a": "cancel", "p": 0})
@@ -468,9 +516,17 @@ func runLife(w *writer, c *lifeCase) {
 			cancel()
 		} else {
 			shutdown()
+			if c.SdBeforeServe {
+				select {
+				case <-sdDone:
+				case <-time.After(time.Second):
+				}
+				startServe()
+			}
 		}
 		wg.Wait()
 	}
+	startServe() // (a schedule without any accept-loop step: the serve call begins now)
 	// let everything still blocked at a gate run to its end
 	lw.openAll()
 	if sdStartedFlag.Load() {
@@ -588,6 +644,16 @@ func sortInts(a []int) {
 			a[j], a[j-1] = a[j-1], a[j]
 		}
 	}
+}
+
+// slowAddrListener: Addr() takes a moment.  Server.Addr() calls it while holding the server's read lock, so a
+// goroutine that keeps asking for the address stretches every lock acquisition of Shutdown and of the accept loop:
+// whoever decided something BEFORE taking the lock finds the world changed when it finally gets it.
+type slowAddrListener struct{ net.Listener }
+
+func (l *slowAddrListener) Addr() net.Addr {
+	time.Sleep(1500 * time.Microsecond)
+	return l.Listener.Addr()
 }
 
 type pipeAddr struct{ id int }
